@@ -307,7 +307,21 @@ impl Property for C16Prop {
         }
         // expected cancels: position (index in pred.obs) and id
         let cancels: Vec<(usize, String)> = pred.obs.iter().enumerate().filter_map(|(i, o)| if let Obs::Cancelled(id) = o { Some((i, id.clone())) } else { None }).collect();
-
+        // simulated time at which a <cancel> at prediction index `cpos` was executed: the time of the real
+        // observation that precedes it (prediction and reality are aligned when the refinement holds)
+        let keep = |o: &Obs| !matches!(o, Obs::Cancelled(_)) && (v.sc.knobs.snapshots || !matches!(o, Obs::Config(_)));
+        let real_kept_seqs: Vec<u64> = real.obs.iter().zip(real.seqs.iter()).filter(|(o, _)| keep(o)).map(|(_, s)| *s).collect();
+        let time_of_seq: BTreeMap<u64, u64> = v.log.iter().map(|r| (r.seq, r.time)).collect();
+        // (sequence number, simulated time) of the real observation that FOLLOWS a <cancel> at prediction index
+        // `cpos`: the cancel was executed before it (the clock may jump between two observations, so only this
+        // upper bound is sound)
+        let cancel_upper = |cpos: usize| -> Option<(u64, u64)> {
+            let k = pred.obs.iter().take(cpos).filter(|o| keep(o)).count();
+            match real_kept_seqs.get(k) {
+                Some(s) => time_of_seq.get(s).map(|t| (*s, *t)),
+                None => Some((u64::MAX, v.rec.now)),
+            }
+        };
         let n = expected_sends.len().min(items.len());
         for k in 0..n {
             let (ev, ms, sendid, params, pos) = &expected_sends[k];
@@ -318,6 +332,7 @@ impl Property for C16Prop {
             }
             // was a cancel for this id executed after this send and before another send reused the id?
             let mut cancelled_by_doc = false;
+            let mut doc_cancel_time: Option<(u64, u64)> = None;
             let mut replaced_by_same_id = false;
             if let Some(id) = sendid {
                 for (cpos, cid) in &cancels {
@@ -326,6 +341,9 @@ impl Property for C16Prop {
                         let reuse_between = expected_sends.iter().any(|(_, _, s2, _, p2)| p2 > pos && p2 < cpos && s2.as_ref() == Some(id));
                         if !reuse_between {
                             cancelled_by_doc = true;
+                            if doc_cancel_time.is_none() {
+                                doc_cancel_time = cancel_upper(*cpos);
+                            }
                         }
                     }
                 }
@@ -372,9 +390,19 @@ impl Property for C16Prop {
                         probes.hit("cancel_after_fire_or_unknown");
                     }
                 }
-                None => {
-                    if cancelled_by_doc && it.fire_time.map(|f| f > it.sched_time).unwrap_or(true) && it.deliveries.is_empty() && !it.discarded && sendid.is_some() {
-                        // cancel executed but the guard was never dropped and nothing delivered: fine only if discarded
+                None => {}
+            }
+            // a <cancel> for this id executed strictly before the due time must prevent delivery, whatever the
+            // platform did with its bookkeeping (no reuse of the id in between, refinement holds)
+            if refinement.is_none() && cancelled_by_doc && !replaced_by_same_id {
+                if let Some((cseq, ctime)) = doc_cancel_time {
+                    verdict.evaluations += 1;
+                    let fire_seq = v.log.iter().find(|r| matches!(&r.kind, RecKind::TimerFire { item } if *item == it.item)).map(|r| r.seq);
+                    // the timer fired only after the cancel had certainly been executed, and the cancel was
+                    // executed before the due time
+                    let fired_after_cancel = fire_seq.map(|f| f > cseq).unwrap_or(false);
+                    if ctime < it.due && fired_after_cancel && !it.deliveries.is_empty() {
+                        vio.push(viol("C16", "C16.cancel-ignored", format!("'{}' (id {:?}) was cancelled before {} ms, i.e. before its due time {} ms, and was delivered anyway", ev, sendid, ctime, it.due), "cancel-ignored".into()));
                     }
                 }
             }
